@@ -78,11 +78,11 @@ func (g *tgen) genConv(n *tnode, v any, known bool) {
 	}
 	switch x := v.(type) {
 	case string:
-		if len(x) > 0 && r.Prob(0.6) {
+		if len(x) > 0 && r.Prob(0.5) {
 			n.TrigByte = string(x[r.Intn(len(x))]) // position in the string = position in the stream
 		}
 	case map[string]any:
-		if ks := mon.SortedKeys(x); len(ks) > 0 && r.Prob(0.6) {
+		if ks := mon.SortedKeys(x); len(ks) > 0 && r.Prob(0.5) {
 			n.TrigKey = mon.PickOne(r, ks)
 		}
 	}
